@@ -943,6 +943,31 @@ def check_arg_register_counters(idx: Index, rep: Report) -> None:
         raise AnalysisError(f"only {n} a_register assignments found in {UTILS}")
 
 
+def check_division_folds(idx: Index, rep: Report) -> None:
+    """RISC-V `div` / `rem` round toward zero; Python's `//` and `%` round toward minus infinity.  A canonicalization that
+    computes the result of a signed division or remainder from two known operands with the Python operators is off by one
+    (and `rem` has the wrong sign) whenever the operands have opposite signs and the division is inexact."""
+    r = rep.rule("C22.R11", "no canonicalization pattern of a signed RISC-V division / remainder computes a quotient or remainder with Python's flooring `//` / `%`", floor=None)
+    mi = idx.module(CANON)
+    n = 0
+    for f in raw_funcs(mi):
+        if f.name != "match_and_rewrite" or len(f.node.args.args) < 2 or f.node.args.args[1].annotation is None:
+            continue
+        ann = unparse(f.node.args.args[1].annotation)
+        if not re.search(r"\b(Div|Rem)(Op|wOp|WOp)\b|\.(DivOp|RemOp)\b", ann):
+            continue
+        n += 1
+        bad = [x for x in ast.walk(f.node) if isinstance(x, ast.BinOp) and isinstance(x.op, (ast.FloorDiv, ast.Mod)) and not isinstance(x.left, ast.Constant)]
+        bad += [c for c in calls_in(f.node) if unparse(c.func) == "divmod"]
+        inst = f"{f.fq}"
+        if bad:
+            x = bad[0]
+            r.fail(inst, Finding("C22.R11", f.fq, "floor-division-fold", f"`{unparse(x)[:60]}` folds `{ann}` with Python's flooring operator: riscv.div / rem truncate toward zero, so `div 1, -3` is 0 (and `rem -7, 2` is -1) while the fold produces -1 (and 1)", f"{CANON}:{x.lineno}"))
+        else:
+            r.ok(inst, f"{f.loc} no flooring arithmetic on the operands")
+    rep.extra.setdefault("c22_division_patterns", n)
+
+
 def check(idx: Index, rep: Report, tier: str) -> str:
     rep.run(check_tables, idx, rep)
     rep.run(check_cmp, idx, rep)
@@ -954,6 +979,7 @@ def check(idx: Index, rep: Report, tier: str) -> str:
     rep.run(check_zero_immediate, idx, rep)
     rep.run(check_strength_reduction, idx, rep)
     rep.run(check_arg_register_counters, idx, rep)
+    rep.run(check_division_folds, idx, rep)
     return (
         "Reference-table agreement of the table-driven arith->riscv lowerings; exact abstract evaluation of the cmpi / cmpf "
         "instruction templates over the finite outcome spaces (signed x unsigned order; lt/eq/gt/unordered) against arith's "
